@@ -26,6 +26,11 @@
      cc                         cast chains (c)(b) x for every ordered triple of types (x : a)
      ccinit ccarg ccret ccassign  an explicit cast (b) x converted implicitly to an object of type c
                                 (emitted as init/arg/ret/assign vectors whose expression is the cast)
+     aopasg aincdec             op= and ++/-- on an _Atomic object (single-threaded value semantics)
+     case                       switch (x : a) { [case L0: switch (y : tn) {...}] case (label : b): } - which case is
+                                selected; the nested switch of another type precedes the label
+     enum                       enum { N = v }; then in an inner scope enum { N = N op c, M } (shadow / blockshadow), or the
+                                chain enum { A = v, B = A op c, C }: value of the redefined / dependent enumerator and its successor
      ptr                        pointers into an array of element size 1,2,4,8,12,24: p + i, i + p, p - i with i
                                 of every integer type (value of i, not its conversion: unsigned int >= 2^31
                                 moves forward), p - q (long), p < q ... (int); values are element indexes    *)
@@ -105,25 +110,35 @@ Cases ==
   \cup ({"incdec"} \X {"preinc", "predec", "postinc", "postdec"} \X N1 \X Types \X N1 \X N1)
   \cup ({"d2l", "d2r"} \X D2Ops1 \X D2Ops2 \X Types9 \X Types9 \X D2TypesC)
   \cup ({"cc", "ccinit", "ccarg", "ccret", "ccassign"} \X N1 \X N1 \X Types \X Types \X Types)
+  \cup ({"aopasg"} \X AsgOps \X N1 \X Types \X Types \X N1)
+  \cup ({"aincdec"} \X {"preinc", "predec", "postinc", "postdec"} \X N1 \X Types \X N1 \X N1)
+  \cup ({"case"} \X N1 \X {"-", "char", "uchar", "int", "uint", "long", "ulong"} \X Types \X Types \X N1)
+  \cup ({"enum"} \X AsgOps \X {"shadow", "blockshadow", "chain"} \X Types \X N1 \X N1)
   \cup ({"ptr"} \X PtrArithOps \X {"1", "2", "4", "8", "12", "24"} \X Types \X N1 \X N1)
   \cup ({"ptr"} \X PtrRelOps \X {"1", "2", "4", "8", "12", "24"} \X N1 \X N1 \X N1)
 
 CCFam == fam \in {"cc", "ccinit", "ccarg", "ccret", "ccassign"}
-Deep == fam \in {"cond", "d2l", "d2r", "opasg"}
+Deep == fam \in {"cond", "d2l", "d2r", "opasg", "aopasg"}
 VT(t) == IF Deep THEN TLCGet(13)[t] ELSE IF CCFam THEN TLCGet(15)[t] ELSE TLCGet(11)[t]
 VS(t) == IF Deep THEN TLCGet(14)[t] ELSE IF CCFam THEN TLCGet(16)[t] ELSE TLCGet(12)[t]
 NV(t) == IF t = "-" THEN 1 ELSE Len(VT(t))
 (* index ranges of the three value coordinates of the current case *)
-NI == IF fam = "ptr" /\ a = "-" THEN Len(KT) ELSE NV(a)
+NI == IF fam = "ptr" /\ a = "-" THEN Len(KT)
+      ELSE IF fam = "case" THEN 2                            \* the two controlling values
+      ELSE IF fam = "enum" THEN Len(TLCGet(11)["int"])       \* value of the outer / first enumerator
+      ELSE NV(a)
 NJ == IF fam = "ptr" THEN Len(KT)
-      ELSE IF CCFam \/ fam \in {"un", "cast", "init", "arg", "ret", "assign", "test", "incdec"} THEN 1 ELSE NV(b)
-NK == IF CCFam \/ fam = "ptr" THEN 1 ELSE NV(c)
+      ELSE IF fam = "enum" THEN Len(TLCGet(13)[a])
+      ELSE IF CCFam \/ fam \in {"un", "cast", "init", "arg", "ret", "assign", "test", "incdec", "aincdec"} THEN 1 ELSE NV(b)
+NK == IF CCFam \/ fam \in {"ptr", "case", "enum"} THEN 1 ELSE NV(c)
 
 OIdxOf(o) == IF \E n \in 1..Len(BinSeq) : BinSeq[n] = o THEN CHOOSE n \in 1..Len(BinSeq) : BinSeq[n] = o
              ELSE IF \E n \in 1..4 : UnSeq[n] = o THEN CHOOSE n \in 1..4 : UnSeq[n] = o
              ELSE IF \E n \in 1..4 : KindSeq[n] = o THEN CHOOSE n \in 1..4 : KindSeq[n] = o
              ELSE IF \E n \in 1..10 : PtrSeq[n] = o THEN CHOOSE n \in 1..10 : PtrSeq[n] = o
-             ELSE IF \E n \in 1..6 : SizeSeq[n] = o THEN CHOOSE n \in 1..6 : SizeSeq[n] = o ELSE 0
+             ELSE IF \E n \in 1..6 : SizeSeq[n] = o THEN CHOOSE n \in 1..6 : SizeSeq[n] = o
+             ELSE IF o \in Types THEN TIdx(o)
+             ELSE IF o = "blockshadow" THEN 1 ELSE IF o = "chain" THEN 2 ELSE 0
 TI(t) == IF t = "-" THEN 0 ELSE TIdx(t)
 CaseHash(cs) == OIdxOf(cs[2]) * 101 + OIdxOf(cs[3]) * 59 + TI(cs[4]) * 7 + TI(cs[5]) * 13 + TI(cs[6]) * 17
 (* the depth-2 families are thinned by whole cases (D2Stride), every family by value choice (Stride) *)
@@ -132,13 +147,15 @@ CasePicked(cs) == cs[1] \in {"d2l", "d2r"} =>
                     /\ ((CaseHash(cs) \div D2Base) + Seed) % D2Stride = 0
 (* the small families (unary, casts, the conversion contexts, ++/--) are always enumerated completely;
    depth 2 is thinned by whole cases already, so its value choices are thinned 8 times less *)
-VStride == IF fam \in {"un", "cast", "init", "arg", "ret", "assign", "test", "incdec", "cc"} THEN 1
+VStride == IF fam \in {"un", "cast", "init", "arg", "ret", "assign", "test", "incdec", "aincdec", "cc"} THEN 1
+           ELSE IF fam \in {"opasg", "aopasg"} THEN (IF Stride < 16 THEN 1 ELSE Stride \div 16)
+           ELSE IF fam \in {"case", "enum"} THEN (IF Stride < 8 THEN 1 ELSE Stride \div 8)
            ELSE IF fam = "ptr" THEN (IF op \in PtrRelOps \/ Stride < 6 THEN 1 ELSE 6)
            ELSE IF fam \in {"ccinit", "ccarg", "ccret", "ccassign"} THEN (IF Stride < 8 THEN 1 ELSE 8)
            ELSE IF fam \in {"d2l", "d2r"} /\ Stride >= 8 THEN Stride \div 8 ELSE Stride
 Pick(ii, jj, kk) == LET h == hb + ii * 31 + jj * 37 + kk * 41 IN
                     IF VStride = 1 /\ fam \notin {"bin", "cond", "opasg", "d2l", "d2r"} THEN TRUE
-                    ELSE IF fam \in {"ptr", "ccinit", "ccarg", "ccret", "ccassign"} THEN (h + Seed) % VStride = 0
+                    ELSE IF fam \in {"ptr", "ccinit", "ccarg", "ccret", "ccassign", "aopasg", "case", "enum"} THEN (h + Seed) % VStride = 0
                     ELSE h % Base = 0 /\ ((h \div Base) + Seed) % VStride = 0
 
 LeafJ(t, n) == [k |-> "leaf", t |-> t, v |-> VS(t)[n]]
@@ -146,7 +163,7 @@ LeafZ(t, n) == Leaf(t, VT(t)[n])
 
 (* the tree as JSON (decimal strings) and as a Level A term *)
 TreeJ(ii, jj, kk) ==
-  CASE fam \in {"bin", "opasg"} -> [k |-> "bin", op |-> op, a |-> LeafJ(a, ii), b |-> LeafJ(b, jj)]
+  CASE fam \in {"bin", "opasg", "aopasg"} -> [k |-> "bin", op |-> op, a |-> LeafJ(a, ii), b |-> LeafJ(b, jj)]
     [] fam = "un"   -> [k |-> "un", op |-> op, a |-> LeafJ(a, ii)]
     [] fam = "cast" -> [k |-> "cast", t |-> b, a |-> LeafJ(a, ii)]
     [] fam = "cc"   -> [k |-> "cast", t |-> c, a |-> [k |-> "cast", t |-> b, a |-> LeafJ(a, ii)]]
@@ -172,8 +189,8 @@ Expect(ii, jj, kk) ==
   CASE fam \in {"init", "arg", "ret", "assign"} -> AsIf(b, r)
     [] fam \in {"ccinit", "ccarg", "ccret", "ccassign"} -> AsIf(c, r)
     [] fam = "test"   -> Test(r)
-    [] fam = "opasg"  -> OpAssign(op, a, VT(a)[ii], Res(TRUE, b, VT(b)[jj]))
-    [] fam = "incdec" -> IncDec(op, a, VT(a)[ii])
+    [] fam \in {"opasg", "aopasg"}  -> OpAssign(op, a, VT(a)[ii], Res(TRUE, b, VT(b)[jj]))
+    [] fam \in {"incdec", "aincdec"} -> IncDec(op, a, VT(a)[ii])
     [] OTHER -> r
 
 IsDivZero(ii, jj) == fam = "bin" /\ op \in {"div", "mod"} /\ IsZero(VT(b)[jj])
@@ -190,8 +207,8 @@ EmitR(r, ii, jj, kk) ==
   THEN CSVWrite("%1$s", <<ToJson([f |-> FamOut, op |-> op, d |-> DestOut, e |-> TreeJ(ii, jj, kk),
                                    t |-> r.t, sz |-> StoreW(r.t) \div 8, sg |-> Sg(r.t),
                                    u |-> ToDecU(64, r.v), s |-> ToDec(r.v),
-                                   obj |-> IF fam = "incdec" THEN ToDecU(64, r.obj)
-                                           ELSE IF FamOut \in {"opasg", "assign", "init", "arg", "ret"} THEN ToDecU(64, r.v) ELSE "",
+                                   obj |-> IF fam \in {"incdec", "aincdec"} THEN ToDecU(64, r.obj)
+                                           ELSE IF FamOut \in {"opasg", "aopasg", "assign", "init", "arg", "ret"} THEN ToDecU(64, r.v) ELSE "",
                                    dz |-> FALSE])>>, IOEnv.OUT)
   ELSE IF IsDivZero(ii, jj)
   THEN CSVWrite("%1$s", <<ToJson([f |-> fam, op |-> op, d |-> b, e |-> TreeJ(ii, jj, kk),
@@ -211,7 +228,26 @@ EmitPtr(ii, jj) ==
                LAMBDA r : CSVWrite("%1$s", <<ToJson([f |-> "ptr", op |-> op, es |-> s, it |-> "-", iv |-> "",
                                                      k |-> ks[ii], k2 |-> ks[jj], t |-> r.t, sz |-> StoreW(r.t) \div 8, sg |-> TRUE,
                                                      u |-> ToDecU(64, r.v), dz |-> FALSE])>>, IOEnv.OUT))
+(* switch vectors: controlling type a, nested switch type op2 ("-": none), label literal of type b;
+   x1 = the label as a value of the controlling type, x2 = x1 + 1 *)
+EmitCase(ii, jj) ==
+  LET vl == VT(b)[jj]
+      cv == Convert(vl, Promote(a))
+      x1 == Convert(cv, a)
+      x  == IF ii = 1 THEN x1 ELSE Convert(Add(x1, One), a)
+  IN CSVWrite("%1$s", <<ToJson([f |-> "case", op |-> "-", tc |-> a, tn |-> op2, tl |-> b, lv |-> VS(b)[jj],
+                                 x |-> ToDec(x), conv |-> ToDec(cv), sel |-> IF CaseSelects(a, x, vl) THEN 1 ELSE 0,
+                                 dz |-> FALSE])>>, IOEnv.OUT)
+(* enumerator vectors: first / outer enumerator value v0 (int), operand c : a *)
+EmitEnum(ii, jj) ==
+  LET v0 == TLCGet(11)["int"][ii]  cc == TLCGet(13)[a][jj] IN
+  With(EnumDef(op, v0, a, cc),
+       LAMBDA r : r.ok /\ CSVWrite("%1$s", <<ToJson([f |-> "enum", op |-> op, form |-> op2, tc |-> a, v0 |-> TLCGet(12)["int"][ii],
+                                                      c |-> TLCGet(14)[a][jj], n |-> ToDec(r.v), m |-> ToDec(r.next),
+                                                      dz |-> FALSE])>>, IOEnv.OUT))
 Emit(ii, jj, kk) == IF fam = "ptr" THEN EmitPtr(ii, jj)
+                    ELSE IF fam = "case" THEN EmitCase(ii, jj)
+                    ELSE IF fam = "enum" THEN EmitEnum(ii, jj)
                     ELSE With(Expect(ii, jj, kk), LAMBDA r : EmitR(r, ii, jj, kk))
 
 Init == /\ ph = 0 /\ i = 0 /\ j = 0 /\ k = 0
